@@ -131,6 +131,9 @@ pub fn run_c10<K: KeyT, V: ValT>(spec: &RunSpec, thorough: bool) -> RunOutcome {
         }
     }
     for op in kinds.iter() {
+        if only.is_none() && crate::past_deadline() {
+            break;
+        }
         let this = app;
         app += 1;
         if let Some(o) = only {
